@@ -8,13 +8,14 @@ THEOREMS = ['C03_chain_spec', 'C03_chain_assert', 'C03_lalr_filters_copy', 'C03_
             'C03_shape_total', 'C03_placeholders_count', 'C03_earley_resolve_is_shape_of_derivation', 'C03_cnf_roundtrip_partial', 'C03_cyk_is_shape',
             'C03_engines_agree_partial', 'C03_cyk_chart_sound', 'C03_cyk_chart_complete', 'C03_cyk_chart_unique',
             'C03_cyk_returns_shape_of_derivation', 'C03_cyk_accepts_sentences', 'C03_cyk_unambiguous',
-            'C03_cnf_link', 'C03_cyk_engine', 'C03_find_rule_size', 'C03_maybe_untaken',
+            'C03_cnf_link', 'C03_cyk_engine', 'C03_to_cnf_closure', 'C03_to_cnf_shape', 'C03_cnf_roundtrip',
+            'C03_cyk_engine_to_cnf', 'C03_find_rule_size', 'C03_maybe_untaken',
             'C03_example_rule', 'C03_example_size', 'C03_example_derivation']
 GEN_DEPS = []
 RULE = ('(a) random compiled-rule records (0-5 symbols, terminals/rules, `_` names, filter_out, alias, template source, '
         'keep_all_tokens, expand1, empty_indices incl. inconsistent ones) x maybe_placeholders x ambiguous: the wrapper '
         'chain lark built (classes, to_include, append_none) and the result / exception of calling lark\'s real callback '
-        'object on 3 random children lists (tokens, trees, None, occasionally ill-typed or of wrong arity) against '
+        'object on 2 random children lists (tokens, trees, None, occasionally ill-typed or of wrong arity) against '
         'Shape/Chain.v and against the independent Shape/Spec.v; (b) the same for the compiled rules of random EBNF '
         'grammars; (c) end to end: random EBNF grammars using ?/!/_ rules, aliases, [..], ?, *, +, ~n..m, groups, '
         'templates, filtered and kept tokens, and (half of the grammars) symbol / word literals whose auto-names '
@@ -136,7 +137,7 @@ def callback_cases(ctx, records, stream, wild):
                                                                        'error': repr(ex)}, False, repr(ex))
                         continue
                 calls = []
-                for _ in range(3):
+                for _ in range(2):
                     ch = sl.random_children(rng, r, wild)
                     obs = None if f is None else sl.call_obs(f, ch)
                     calls.append((ch, obs))
